@@ -527,6 +527,12 @@ def extra_cases(rng, tier):
     # beyond MAX_FRAME_SIZE, every message kind), judged by the C03 oracle as well
     for _ in range({"quick": 150, "thorough": 3000, "search": 300}[tier]):
         cases.append(c03.gen_case(rng))
+    # the library's own `ls` response at the unsigned-varint width boundaries of the per-name prefix:
+    # `encoded_len` (the outer WebRTC frame prefix) must agree with `encode` (seeded change C19-c2)
+    for ln in (126, 127, 128, 16383):
+        m = ("protos", [b"/" + b"v" * (ln - 1)] * rng.choice([1, 2]) + [b"/a"])
+        cases.append([f"enc {c03.show_msg(m)}", f"dec {hx3(c03.enc_msg(m))}", f"wenc {c03.show_msg(m)} 0",
+                      f"wenc {c03.show_msg(m)} 1"])
     yield "C03", cases
     # substream length prefixes (the sender is a scripted raw writer)
     c4 = []
